@@ -133,10 +133,13 @@ def handleDomWalk (st : St) (op : String) (j : Json) : Option (D (St × Json)) :
     let root ← str (← field j "root")
     let kids ← listOf dnodeOf (← field j "kids")
     let nl := ("normalizeLists", Json.bool P.normalizeLists)
+    -- the decidable guards of `parse_no_internal` on this input (schema guards: op `domHyps`)
+    let guards := ("guards", Json.mkObj [("rulesOk", Json.bool P.rulesOk),
+      ("domOk", Json.bool (listOk true (fun _ => true) kids))])
     if isSlice then
       match parseSliceW P root kids with
-      | .error e => return (st, Json.mkObj [nl, ("err", errName e)])
-      | .ok (w, c) => return (st, Json.mkObj [nl, ("events", Json.arr (w.log.map eEvent).toArray), ("frag", eFrag c),
+      | .error e => return (st, Json.mkObj [nl, guards, ("err", errName e)])
+      | .ok (w, c) => return (st, Json.mkObj [nl, guards, ("events", Json.arr (w.log.map eEvent).toArray), ("frag", eFrag c),
           ("open", Json.arr #[jn (Slice.maxOpen S c).openStart, jn (Slice.maxOpen S c).openEnd])])
     else
       match parseW P root kids with
@@ -145,8 +148,8 @@ def handleDomWalk (st : St) (op : String) (j : Json) : Option (D (St × Json)) :
         let evs := match addAll P root kids false (walkInit P false .unset) with
           | .ok w => Json.arr (w.log.map eEvent).toArray
           | .error _ => Json.null
-        return (st, Json.mkObj [nl, ("err", errName e), ("events", evs)])
-      | .ok (w, doc) => return (st, Json.mkObj [nl, ("events", Json.arr (w.log.map eEvent).toArray), ("doc", eNode doc)])
+        return (st, Json.mkObj [nl, guards, ("err", errName e), ("events", evs)])
+      | .ok (w, doc) => return (st, Json.mkObj [nl, guards, ("events", Json.arr (w.log.map eEvent).toArray), ("doc", eNode doc)])
   -- `DOMParser.schema_rules`: {specs: [[id, priority|null, hasMark, ignore, hasClearMark]]} -> [[id, takesOwner]]
   | "schemaRules" => some do
     let specs ← listOf ruleSpecOf (← field j "specs")
